@@ -138,6 +138,9 @@ type vd struct {
 	Key string `json:"key,omitempty"` // kMap
 	// kMap: the map holds nothing but Key (a value wrapped by WithOutputKey); otherwise also "pad_"+Key
 	NoPad bool `json:"no_pad,omitempty"`
+	// Multi: the value may arrive in several chunks in the stream forms (strings and maps). eino cannot
+	// concatenate chunks of an interface type, so such a value is only consumed by its exact type.
+	Multi bool `json:"multi,omitempty"`
 }
 
 func (d vd) String() string {
@@ -473,7 +476,7 @@ type tNode struct {
 func (n *tNode) eff() vd {
 	if n.OutputKey != "" {
 		o := n.Out
-		return vd{K: kMap, Key: n.OutputKey, D: &o, NoPad: true}
+		return vd{K: kMap, Key: n.OutputKey, D: &o, NoPad: true, Multi: o.Multi}
 	}
 	return n.Out
 }
@@ -1455,7 +1458,8 @@ func genOut(r *mon.Rand, p *genP, allowMap bool) vd {
 	if allowMap && r.Prob(p.pMapOut) {
 		inner := concrete()
 		if r.Prob(p.pIfaceOut) {
-			inner = vd{K: kAny, D: &inner, Nil: r.Prob(p.pNilOut)}
+			c := inner
+			inner = vd{K: kAny, D: &c, Nil: r.Prob(p.pNilOut)}
 		}
 		return vd{K: kMap, Key: "k" + strconv.Itoa(r.Intn(3)), D: &inner}
 	}
@@ -1511,6 +1515,12 @@ func fieldSources(src vd) (paths [][]string, descs []vd) {
 // inputChoices lists the ways a node can consume a value described by src.
 func inputChoices(src vd, workflow bool) (out []inChoice) {
 	out = append(out, inChoice{In: src.K, Seen: src, Rel: "exact"})
+	if src.Multi {
+		if src.K == kMap && src.D != nil && !src.D.K.iface() {
+			out = append(out, inChoice{In: src.D.K, InputKey: src.Key, Seen: *src.D, Rel: "inputkey"})
+		}
+		return out
+	}
 	dyn := src.dyn()
 	wrap := func(k kind) vd { return vd{K: k, Nil: dyn == nil, D: dyn} }
 	if src.K != kAny {
@@ -1617,6 +1627,7 @@ func genNode(r *mon.Rand, p *genP, g *tGraph, depth int, from string, src vd, re
 		if n.Out.K != kStr && n.Out.K != kMap {
 			n.Chunks = 1
 		}
+		n.Out.Multi = n.Chunks > 1 && (n.Form == "s" || n.Form == "t")
 		if r.Prob(p.pRerun) {
 			switch {
 			case g.State && r.Prob(0.6):
@@ -1638,11 +1649,13 @@ func genNode(r *mon.Rand, p *genP, g *tGraph, depth int, from string, src vd, re
 		case r.Prob(p.pRtCheck):
 			inner := n.Out
 			m := vd{K: kMap, Key: req.mustMapKey, D: &inner}
+			inner.Multi = false
 			n.Out = vd{K: kAny, D: &m}
 			n.Chunks = 1
 		default:
 			inner := n.Out
-			n.Out = vd{K: kMap, Key: req.mustMapKey, D: &inner}
+			inner.Multi = false
+			n.Out = vd{K: kMap, Key: req.mustMapKey, D: &inner, Multi: n.Chunks > 1 && (n.Form == "s" || n.Form == "t")}
 		}
 	case r.Prob(p.pOutputKey):
 		n.OutputKey = "o" + strconv.Itoa(r.Intn(3))
@@ -1914,5 +1927,6 @@ func genTyped(r *mon.Rand, focus string, thorough bool) *tGraph {
 			in = vd{K: kMap, Key: "k0", D: &inner}
 		}
 	}
+	in.Multi = in.K == kStr || in.K == kMap // Collect / Transform hand the input over in chunks
 	return genGraph(r, &p, "", "", in, 0)
 }
